@@ -7,7 +7,10 @@ package interp
 // Real code executed from SSA: recv (both forms), recv2, send, rangeChan,
 // _select generators and the closures they install, genValue, genDestValue.
 
-import "reflect"
+import (
+	"reflect"
+	"time"
+)
 
 var (
 	vhBlockOp   = 0 // 0 recv, 1 recv as branch condition, 2 recv2 (v, ok := <-c), 3 send, 4 range over channel, 5 select (two receive clauses)
@@ -108,8 +111,17 @@ func vh_C09_block() {
 		// native replay: the channel is empty and the evaluation is cancelled:
 		// the operation must give up instead of continuing
 		close(i.done)
-		r := n.exec(f)
-		vAssert("C09.block.cancel-stops", r == nil)
+		res := make(chan bltn, 1)
+		go func() { res <- n.exec(f) }()
+		select {
+		case r := <-res:
+			vAssert("C09.block.cancel-stops", r == nil)
+		case <-time.After(2 * time.Second):
+			// still blocked although the evaluation is cancelled
+			vAssert("C09.block.cancel-stops", false)
+			vAssert("C09.block.no-plain-blocking-call", false)
+			vAssert("C09.block.done-is-a-case", false)
+		}
 		return
 	}
 	r := n.exec(f)
